@@ -77,7 +77,7 @@ impl Popen {
     pub fn drop_impl(&mut self, Tracked(w): Tracked<&mut World>)
         requires
             old(self).child_state is Running ==> (old(self).child_state->pid as int) < old(w).s.stages.len(),
-            !old(self).detached && old(self).child_state is Running ==> holds_no_pipe(*old(self)) && no_parked(old(w).s), //[C12,C14]
+            !old(self).detached && old(self).child_state is Running ==> holds_no_pipe(*old(self)) && no_parked(old(w).s), //[C01,C12,C14]
         ensures
             !old(self).detached && old(self).child_state is Running ==> final(w).s == set_reaped(old(w).s, old(self).child_state->pid as int),
             old(self).detached || !(old(self).child_state is Running) ==> final(w).s == old(w).s,    // a detached handle never blocks, never reaps
@@ -174,7 +174,7 @@ pub mod popen_m {
 // Vec<T>: the elements in order.  (Files are closed by their own drop; not modelled.)
 pub fn drop_glue_popen(p: Popen, Tracked(w): Tracked<&mut World>)
     requires p.child_state is Running ==> (p.child_state->pid as int) < old(w).s.stages.len(),
-        !p.detached && p.child_state is Running ==> holds_no_pipe(p) && no_parked(old(w).s), //[C12,C14]
+        !p.detached && p.child_state is Running ==> holds_no_pipe(p) && no_parked(old(w).s), //[C01,C12,C14]
     ensures
         !p.detached && p.child_state is Running ==> final(w).s == set_reaped(old(w).s, p.child_state->pid as int),
         p.detached || !(p.child_state is Running) ==> final(w).s == old(w).s,
